@@ -254,8 +254,27 @@ def promote_cheap():
             h["thorough"] = []
 
 
+def promote_representatives():
+    """The generic properties (C01, C03, C20) get, in the quick tier, at least one schedule
+    harness with >= 2 children per (family x container) in the cheap configurations, whatever
+    it costs (the cheapest one is taken)."""
+    import re
+    best = {}
+    for h in H:
+        m = re.match(r"^(?:fam_fut|fam_stream)::(?:vec_proofs::)?(join|tryjoin|race|raceok|merge|zip|chain)_(tup|arr|vec|ext)(\d)_(?!.*(?:drop|quiet))", h["name"])
+        if not m or h["config"] == "std" or int(m.group(3)) < 2 or not h["quick"]:
+            continue
+        k = (m.group(1), m.group(2))
+        if k not in best or h["cost"] < best[k]["cost"]:
+            best[k] = h
+    for h in best.values():
+        h["quick"] = sorted(set(h["quick"]) | set(h["thorough"]))
+        h["thorough"] = []
+
+
 def main():
     promote_cheap()
+    promote_representatives()
     json.dump({"harnesses": H, "assumptions": ASSUMPTIONS}, open(os.path.join(ROOT, "harnesses.json"), "w"), indent=1)
     props = sorted({p for h in H for p in h["quick"] + h["thorough"]})
     print(len(H), "entries;", "properties:", " ".join(props))
